@@ -324,6 +324,9 @@ def caseP : P Case := do
     | "slice" => pure (InKind.slice, 0) | "str" => pure (InKind.str, 0)
     | "mapped0" => pure (InKind.mapped, 0) | "mapped1" => pure (InKind.mapped, 1)
     | "mapped3" => pure (InKind.mapped, 3)
+    | "stream" => pure (InKind.slice, 0)
+    | "mstream0" => pure (InKind.mapped, 0) | "mstream1" => pure (InKind.mapped, 1)
+    | "mstream3" => pure (InKind.mapped, 3)
     | t => throw s!"bad input kind {t}"
   let mode ← match (← tok) with
     | "parse" => pure Mode.emit | "check" => pure Mode.check
